@@ -103,8 +103,8 @@ def dds_hash(x: Any) -> PyHash:
 
     def _dds_hash0(elt: Any) -> PyHash:
         if elt is None:
-            # TODO: this is not robust to adversarial changes.
-            return PyHash(hashlib.sha256("__DDS_NONE__".encode("utf-8")).hexdigest())
+            # The leading byte is never valid UTF-8: None cannot collide with any string.
+            return _algo_bytes(b"\xff__DDS_NONE__")
         if isinstance(elt, str):
             return _algo_str(elt)
         if isinstance(elt, float):
@@ -119,6 +119,9 @@ def dds_hash(x: Any) -> PyHash:
             return _algo_str(repr(elt))
         if isinstance(elt, list):
             check_len(elt)
+            if not elt:
+                # The empty sequence must not hash like the empty string.
+                return _algo_bytes(b"\xff[]")
             return _algo_str(
                 "|".join([_dds_hash(y, idx) for (idx, y) in enumerate(elt)])
             )
